@@ -155,9 +155,9 @@ def audit_axioms(prop_id, modules, names):
             pass
     out = p.stdout + p.stderr
     res = {}
-    for m in re.finditer(r"'([^']+)' depends on axioms: \[([^\]]*)\]", out, re.S):
+    for m in re.finditer(r"'(\S+)' depends on axioms: \[([^\]]*)\]", out, re.S):
         res[m.group(1)] = [a.strip() for a in m.group(2).replace("\n", " ").split(",") if a.strip()]
-    for m in re.finditer(r"'([^']+)' does not depend on any axioms", out):
+    for m in re.finditer(r"'(\S+)' does not depend on any axioms", out):
         res[m.group(1)] = []
     missing = [n for n in names if n not in res]
     if p.returncode != 0 or missing:
